@@ -115,8 +115,9 @@ class SsbGraphMinimizer:
                     ins = g.incident(v, IN)
                     if len(ins) == 1:
                         iv = g.es[ins[0]].source_vertex
-                        if isinstance(iv["op"], SsbLabel):
-                            # IS JUMP AND BEFORE IS LABEL:
+                        if isinstance(iv["op"], SsbLabel) and iv.index != 0:
+                            # IS JUMP AND BEFORE IS LABEL (and the label is not the entry point of the routine:
+                            # the first vertex is where the routine starts, it must not be bypassed):
                             vs_to_delete += self._optimize_paths__jump_after_label(g, jump=v, label=iv)
             g.delete_vertices(vs_to_delete)
 
@@ -739,6 +740,10 @@ class SsbGraphMinimizer:
                     in_edges = v.in_edges()
                     out_edges = v.out_edges()
                     if len(in_edges) == 0:
+                        if v.index == 0 and not (len(out_edges) == 1 and out_edges[0].target == 1):
+                            # The label is the entry point of the routine and does not simply continue with the
+                            # next vertex: removing it would make another vertex the entry point.
+                            continue
                         vs_to_delete.add(v)
                     elif len(in_edges) == 1:
                         assert len(out_edges) == 1
